@@ -258,6 +258,21 @@ pub fn run(ctx: &mut Ctx) {
             sc.main.push_str(&format!("<{{% include '{}' %}}|{{% render '{name}' %}}>", sc.partials[k].0));
             ctx.count("scenarios:with-invisible-edges-in-a-partial");
         }
+        // tags inside a partial whose own partial name changes from use to use (the partial's parsed
+        // nodes are shared by every use under the eager and lazy policies, re-made under on-demand)
+        if r.chance(1, 6) {
+            sc.partials.push(("rowr".into(), "<{% render kk %}>".into()));
+            sc.partials.push(("rowi".into(), "<{% include kk %}>".into()));
+            sc.partials.push(("ka".into(), "A".into()));
+            sc.partials.push(("kb".into(), "B{{ kk }}".into()));
+            let kinds: Vec<crate::val::RVal> = (0..2 + r.below(3)).map(|_| crate::val::RVal::Str(r.choose(&["ka", "kb"]).to_string())).collect();
+            if let crate::val::RVal::Object(kv) = &mut sc.data {
+                kv.retain(|(k, _)| k != "kinds");
+                kv.push(("kinds".into(), crate::val::RVal::Array(kinds)));
+            }
+            sc.main.push_str("{% for kk in kinds %}{% include 'rowr' %}{% include 'rowi' %}{% render 'rowr', kk: kk %}{% endfor %}");
+            ctx.count("scenarios:with-changing-names-inside-a-partial");
+        }
         let renders = 1 + r.below(3);
         ctx.set_progress(&replay_json(&sc).to_string());
         let uses_partials = sc.main.contains("include") || sc.main.contains("render");
